@@ -13,15 +13,18 @@ import (
 // {0,1,3,4,5,8,9,16,17,33} and every interleaving pattern below, each value distinct, bound buffers
 // overwritten before the challenges are computed; the usual lock-step comparison and closing rounds.
 func TestC15_Bursts(t *testing.T) {
-	counts := []int{0, 1, 3, 4, 5, 8, 9, 16, 17, 33}
 	orders := []string{"a*b*c*", "c*b*a*", "round_robin", "b*a*c*_compute_a_first"}
 	for _, h := range hashes {
 		if !selected(h.name) {
 			continue
 		}
 		names := []string{"alpha", "beta", "gamma"}
-		if h.name == "mimc" {
-			counts = []int{0, 1, 4, 5, 9, 17}
+		counts := []int{0, 1, 4, 5, 9, 17}
+		switch {
+		case h.name == "sha256":
+			counts = []int{0, 1, 3, 4, 5, 8, 9, 16, 17, 33}
+		case h.field() && h.name != "mimc":
+			counts = []int{0, 1, 4, 5, 9}
 		}
 		test := "C15_Bursts/" + h.name
 		var n int64
@@ -79,6 +82,7 @@ func TestC15_Bursts(t *testing.T) {
 				}
 			}
 		}
+		rep.Count(test, h.digestClass(), 1, 0, h.name)
 		rep.Count(test, h.name+":many_bindings", n, n, fmt.Sprintf("%s counts=%v orders=%v", h.name, counts, orders))
 		rep.Exhaustive(test)
 	}
